@@ -370,6 +370,14 @@ def normalise_pair(case, a, b):
     if isinstance(b, dict) and b.get("unsupported"):
         ctx.count("model:unsupported")
         return None, None
+    if isinstance(a, dict) and isinstance(b, dict) and "ok" in a and "ok" in b:
+        b = dict(b)
+        alts = b.pop("alts", None) or []
+        if a["ok"] != b["ok"] and a.get("n") == b.get("n") and a["ok"] in alts:
+            # the real front end returned another of the model's records (every one of them is proved to be a
+            # genuine match; which comes first is an iteration order the property leaves open)
+            ctx.count("tie:other-record-of-the-model")
+            b["ok"] = a["ok"]
     return a, b
 
 
